@@ -153,6 +153,7 @@ ev_send(int i, int blocking)
 		CHECK(KDONE(i) && KRESULT(i) == NNG_ETIMEDOUT, "C15: non-blocking send with no room fails at once");
 	else {
 		CHECK(!KDONE(i), "send blocks rather than discarding when the peer is not reading");
+		KWAIT_POST(i, 0);
 		WITNESS("send blocks");
 	}
 	monitor();
@@ -172,8 +173,10 @@ ev_recv(int i, int blocking)
 		CHECK(KDONE(i) && KRESULT(i) == 0, "C15: receive succeeds at once when a message is available");
 	else if (!blocking)
 		CHECK(KDONE(i) && KRESULT(i) == NNG_ETIMEDOUT, "C15: non-blocking receive with nothing available fails at once");
-	else
+	else {
 		CHECK(!KDONE(i), "blocking receive waits");
+		KWAIT_POST(i, 1);
+	}
 	monitor();
 }
 static void
